@@ -388,6 +388,8 @@ func (n *Node[T]) Accept(ctx context.Context, block Block) (ExecutedBlock[T], er
 					break
 				}
 			}
+			// the fetched chunk was appended by onResponse; there are no local bytes to parse
+			continue
 		}
 
 		chunk, err := ParseChunk[T](chunkBytes)
